@@ -255,6 +255,10 @@ def emu_cases(draw):
     neg = (not far) and base < 2 ** 53 and draw(st.integers(0, 4)) == 0
     if neg:
         base = -50000
+    # "zero": the earliest corrected clock of the trace is exactly 0
+    zero = (not far) and (not neg) and base < 2 ** 53 and draw(st.integers(0, 5)) == 0
+    if zero:
+        base = 0
     HOUR = 3600 * 10 ** 9
     scale = draw(st.sampled_from([1, 1, 1, 2 ** 31 + 3, 5 * 10 ** 9]))   # seconds apart: differences beyond 32 bits
     samepid = draw(st.booleans())
@@ -274,6 +278,8 @@ def emu_cases(draw):
             tid += 1
             k = draw(st.integers(0, 8))
             start = draw(st.integers(0, 20))
+            if zero and not streams:
+                start = 0
             gaps = draw(st.lists(st.integers(0, 6), min_size=k + 1, max_size=k + 1))
             clk = base + start * scale - offsets.get(host, 0)   # so that corrected clocks collide across hosts
             evs = [T.OHx(clk, -1)]
@@ -294,7 +300,7 @@ def emu_cases(draw):
                         "extra": {"ovni.part": "aux"}})
     order = list(draw(st.permutations(list(range(len(streams))))))
     # (without the table the far hosts would really be hours apart, which the emulator refuses by design)
-    use_offsets = (offsets or None) if (far or neg or draw(st.integers(0, 4)) != 0) else None
+    use_offsets = (offsets or None) if (far or neg or zero or draw(st.integers(0, 4)) != 0) else None
     return {"streams": streams, "offsets": use_offsets, "mkorder": order}
 
 
